@@ -28,9 +28,13 @@ pub struct GameServerSpec {
 
 #[derive(Deserialize, Serialize, Clone, Debug, Default, JsonSchema)]
 pub struct GameServerStatus {
+    // a status that was not written by the controller may lack (or null) any of these fields, such
+    // a game server is simply not ready and must not fail the list it is part of
+    #[serde(default, deserialize_with = "null_as_default")]
     address: String,
     #[serde(default, deserialize_with = "null_as_default")]
     ports: Vec<GameServerPort>,
+    #[serde(default, deserialize_with = "null_as_default")]
     state: String,
     counters: Option<HashMap<String, GameServerCounter>>,
     lists: Option<HashMap<String, GameServerList>>,
